@@ -17,8 +17,10 @@ import (
 
 // zzRewardWorld: accounts 1 and 2, validator 0 (symbolic stake, compound flag, unstaking or not,
 // output = account 1), the reward pool of chain 1 and the DAO pool; Supply.Total = sum.
+var zzRewardCommittees = []uint64{1}
+
 func zzRewardWorld(sm *StateMachine) (v *Validator, pool uint64) {
-	v = &Validator{Address: zzAddr(0), PublicKey: zzAddr(4), StakedAmount: zzN64("stake"), Committees: []uint64{1}, Output: zzAddr(1), Compound: zzBool("compound")}
+	v = &Validator{Address: zzAddr(0), PublicKey: zzAddr(4), StakedAmount: zzN64("stake"), Committees: zzRewardCommittees, Output: zzAddr(1), Compound: zzBool("compound")}
 	if zzBool("unstaking") {
 		v.UnstakingHeight = 50
 	}
@@ -94,6 +96,9 @@ func ZZ_C04_distribute_committee_rewards() {
 func ZZ_C04_fund_committee_reward_pools() {
 	h := uint64(10 + 120*zzConcrete(zzInt("halvenings"), 0, 2)) // height 10, 130 or 250: 0, 1 or 2 halvenings
 	sm, _ := zzFSM(h)
+	// 1, 2 or 3 subsidized committees: the per-committee amount is a truncated division, whatever is
+	// not handed to a pool must not be booked either
+	zzRewardCommittees = [][]uint64{{1}, {1, 2}, {1, 2, 3}}[zzConcrete(zzInt("subsidizedCommittees"), 0, 2)]
 	zzRewardWorld(sm)
 	sm.Config.BlocksPerHalvening = 100
 	sm.Config.InitialTokensPerBlock = zzN64("tokensPerBlock")
